@@ -4,6 +4,7 @@
  'clauses': 'd/i, u, o, x/X and the %p call of print_i: for every 64-bit value, every flag set (- + space # 0, upper case), every width >= 0 and every precision >= 0 or none: return value == ISO length, number of callback calls == return value, the k-th character handed to the callback == k-th character of the ISO text (arbitrary k); digits are built inside buff[23] only (every access checked); no signed overflow',
  'params': {'CONV': ['CONV_D', 'CONV_U', 'CONV_O', 'CONV_X', 'CONV_P']},
  'include': ['igris/util'],
+ 'solver': 'kissat',
  'unwind': 24,
  'complete_unwinding': 'digit loop (do..while (u)): at most 22 iterations (64-bit value, base 8); prefix loop: at most 2; digit output loop (while (len--)): at most 22; strlen of the 0..2 character prefix literal (cbmc library model): at most 3; oracle loops: constant bound 22.  All unwound 24 times with unwinding assertions.  The three padding loops (bounded by width/precision) are closed by injected invariants.',
  'inject': [
@@ -25,6 +26,16 @@
                   'g_k < g_c3 ==> g_got == g_g3',
                   '(g_c3 <= g_k && g_k < g_count) ==> g_got == 48'],
    'decreases': 'zero_count'},
+  {'file': 'igris/util/printf_impl.c', 'func': 'print_i', 'at': 'before', 'anchor': 'while (len--)',
+   'ghost': 'g_c4 = g_count; g_n4 = len; g_g4 = g_got; g_s4 = str;'},
+  {'file': 'igris/util/printf_impl.c', 'func': 'print_i', 'loop': 4, 'expect': 'while (len--)',
+   'assigns': 'len, str, g_count, g_got',
+   'invariants': ['0 <= len && len <= g_n4',
+                  '__CPROVER_same_object(str, g_s4) && __CPROVER_POINTER_OFFSET(str) == __CPROVER_POINTER_OFFSET(g_s4) + (g_n4 - len)',
+                  'g_count == g_c4 + (g_n4 - len)',
+                  'g_k < g_c4 ==> g_got == g_g4',
+                  '(g_c4 <= g_k && g_k < g_count) ==> g_got == (int)g_s4[g_k - g_c4]'],
+   'decreases': 'len'},
   {'file': 'igris/util/printf_impl.c', 'func': 'print_i', 'at': 'before', 'anchor': 'while (space_count--)',
    'ghost': 'g_c5 = g_count; g_n5 = space_count; g_g5 = g_got;'},
   {'file': 'igris/util/printf_impl.c', 'func': 'print_i', 'loop': 5, 'expect': 'while (space_count--)',
@@ -47,8 +58,9 @@
 #include "c06_env.h"
 #include "c06_iso_printf.h"
 /* ghost snapshots taken by the injected statements in front of the three padding loops */
-long long g_c1, g_n1, g_c3, g_n3, g_c5, g_n5;
-int g_g1, g_g3, g_g5;
+long long g_c1, g_n1, g_c3, g_n3, g_c4, g_n4, g_c5, g_n5;
+int g_g1, g_g3, g_g4, g_g5;
+const char *g_s4;
 #include "igris/util/printf_impl.c"
 
 #define CONV_D 0
